@@ -374,7 +374,8 @@ class SimPool(bp.Pool):
 
 class MPart:
     __slots__ = ('i', 'owner', 'taken', 'finished', 'ready_delivered',
-                 'ack_delivered', 'ack_time', 'items', 'detected_at')
+                 'ack_delivered', 'ack_time', 'items', 'detected_at',
+                 'ack_delivered_at')
 
     def __init__(self, i, items):
         self.i = i
@@ -385,6 +386,7 @@ class MPart:
         self.ready_delivered = False
         self.ack_delivered = False
         self.ack_time = None
+        self.ack_delivered_at = 0.0
         self.detected_at = None
 
 
@@ -702,6 +704,7 @@ class Sim:
             if mj is not None and i in mj.parts:
                 mj.parts[i].ack_delivered = True
                 mj.parts[i].ack_time = t
+                mj.parts[i].ack_delivered_at = CLOCK.now
                 if pid in self.reaps:
                     # consumed only after its sender had been reaped (zone of
                     # the open finding D7)
@@ -728,6 +731,8 @@ class Sim:
         def cb(v):
             mj.cb['callback'] += 1
             mj.order.append('callback')
+            if mj.cb['callback'] == 1:
+                mj.success_at = (CLOCK.now, self.in_join)
             if mj.opts.get('cbscan') and mj.cb['callback'] == 1:
                 self.scan_during_callback(mj)
 
@@ -1581,6 +1586,18 @@ class Sim:
         if pref:
             self.labels.add('slow_tail_of_shared_job')
 
+    def op_drainlimit(self, k, secs):
+        """composite: the task worker k is running will take ``secs`` more
+        seconds, and the pool is closed and joined meanwhile.  On a pool without
+        helper threads nobody but the result handler's shutdown loop enforces
+        the time limits then."""
+        if self.closed or self.op_slow(k, secs) == 'noop':
+            return 'noop'
+        if self.op_close() is not None:
+            return 'noop'
+        self.labels.add('drain_with_slow_task')
+        return self.op_join()
+
     def op_straggle(self, k, secs, then_close=True):
         """composite: of the next two queued parts of one multi-part job, one is
         done and delivered by a worker, the other is accepted by a different
@@ -1611,6 +1628,45 @@ class Sim:
         if then_close:
             self.op_close()
 
+    def op_parkrecycle(self, k, secs):
+        """composite: of the next two queued parts of one multi-part job the
+        *earlier* one is accepted by a worker and will take ``secs`` more
+        seconds, the later one is done and delivered by another worker (for an
+        ordered imap its result is parked until the earlier one arrives); if
+        that worker has thereby used up its quota it leaves with the recycle
+        status, is reaped, and the clock passes the lost-worker timeout"""
+        if self.closed:
+            return 'noop'
+        self.drain_taskqueue()
+        idle = [p for p in self.alive_workers()
+                if p.state == IDLE and not p.term_pending]
+        if len(idle) < 2 or len(self.fifo) < 2 or self.fifo[0] is None or \
+                self.fifo[1] is None:
+            return 'noop'
+        j0, j1 = self.fifo[0][1][0], self.fifo[1][1][0]
+        mj = self.by_jobid.get(j0)
+        if j0 != j1 or mj is None or not mj.multipart:
+            return 'noop'
+        x = idle[k % len(idle)]
+        y = [p for p in idle if p is not x][0]
+        self.w_take(y)
+        while y.outbox:
+            self.deliver(y)
+        y.busy_until = CLOCK.now + secs
+        self.w_take(x)
+        self.w_finish(x)
+        while x.outbox:
+            self.deliver(x)
+        self.labels.add('later_part_first')
+        if x.state == DRAINING and self.w_drain_exit(x):
+            self.labels.add('recycle_exit')
+            self.labels.add('parked_part_owner_recycled')
+            res = self.op_tick()
+            if res is not None:
+                return res
+            self.op_adv(min(secs - 0.5, (self.config.get('lost') or 10.0) + 0.5))
+            return self.op_tick()
+
     def op_run(self, k):
         """composite: worker k takes a task and its ACK is delivered (the job
         is now running with a known accept time)"""
@@ -1624,7 +1680,7 @@ class Sim:
             self.deliver(proc)
 
     # -- dispatch --------------------------------------------------------------------
-    AFTER_CLOSE_OK = ('straggle', 'slow', 'run', 'take', 'finish', 'deliver', 'work', 'feed', 'adv', 'dup',
+    AFTER_CLOSE_OK = ('straggle', 'parkrecycle', 'slow', 'run', 'take', 'finish', 'deliver', 'work', 'feed', 'adv', 'dup',
                       'wexit', 'join', 'quiesce', 'close', 'apply', 'map', 'imap',
                       'tick', 'discard', 'die')
 
